@@ -15,7 +15,8 @@ TRUSTED = [py2lean.trusted_note("entropy")]
 PROP_FILES = ["PersimVerif/Props/C16.lean", py2lean.prop_file("entropy")]
 RULE = ("barcodes generated from one PRNG: 1-4 diagrams of 0-12 bars, coordinates from lattice/half/dyadic/"
         "decimal/uniform modes over scales 2^-20..2^20, infinite deaths with prob 0.25, infinite births with prob 0.03 "
-        "(the code filters on the death column only), all 8 flag combinations, "
+        "(the code filters on the death column only), all 8 flag combinations, the two boolean flags written as Python bool / np.bool_ / int 0,1 "
+        "(half of the cases plain bools; the expected behaviour is that of the flag's truth value), "
         "a malformed stream with non-positive bars; a representation stream (uint8/int8/int32/int64/float32 arrays, "
         "lists of nested lists / tuples, bars born after dying in unsigned dtypes) compared with the definition on the "
         "same numbers; non-trivial = at least one diagram with >=2 finite bars; distinct by digest of (flags, diagrams)")
@@ -51,11 +52,29 @@ def arr(d):
     return np.array(d, dtype=float).reshape(-1, 2)
 
 
-def run_code(dgms, keep, vinf, norm, single=False):
+# how a caller may write the two boolean flags: a Python bool, a numpy bool (the result of any numpy comparison, e.g.
+# `keep_inf=(mode == "keep")` on arrays or `np.any(...)`), or the integers 0 / 1.  The statement quantifies over "all flag
+# combinations (keep_inf, val_inf, normalize)"; a flag that is on is on however it is written, so the expected behaviour
+# is that of the flag's truth value (on the unchanged tree the three spellings behave identically everywhere: the code
+# tests `flag == True` / `flag == False`, and np.True_ == True, 1 == True, np.False_ == False, 0 == False).
+FLAG_REPS = ("bool", "np.bool_", "int")
+
+
+def flag(v, rep="bool"):
+    v = bool(v)
+    return v if rep == "bool" else np.bool_(v) if rep == "np.bool_" else int(v)
+
+
+def gen_flag_reps(r):
+    """(representation of keep_inf, representation of normalize): both plain bools in half of the cases"""
+    return ["bool", "bool"] if r.random() < 0.5 else [r.choice(FLAG_REPS), r.choice(FLAG_REPS)]
+
+
+def run_code(dgms, keep, vinf, norm, single=False, reps=("bool", "bool")):
     pe = common.pm("persistent_entropy").persistent_entropy
     arg = arr(dgms[0]) if single else [arr(d) for d in dgms]
     with np.errstate(all="ignore"):
-        return call(pe, arg, keep_inf=keep, val_inf=vinf, normalize=norm)
+        return call(pe, arg, keep_inf=flag(keep, reps[0]), val_inf=vinf, normalize=flag(norm, reps[1]))
 
 
 def canon(res):
@@ -107,21 +126,23 @@ def run(ctx):
             vinf = None if r.random() < 0.25 else r.choice([0.5, 7.0, 100.0, float(r.randint(1, 30))])
             norm = r.random() < 0.5
         single = len(dgms) == 1 and r.random() < 0.5
-        cases.append((dgms, keep, vinf, norm, single))
+        reps = ["bool", "bool"] if i < len(corpus) else gen_flag_reps(r)
+        cases.append((dgms, keep, vinf, norm, single, reps))
         lines.append("ent %s %s %s %s" % (enc(keep), enc(vinf), enc(norm), enc(dgms)))
     answers = ask(lines)
     cov = common.LineCov(["persim/persistent_entropy.py"])
     ctx.extra["anchored_source_digest"] = {"persim/persistent_entropy.py": common.source_digest("persim/persistent_entropy.py")}
-    for k, ((dgms, keep, vinf, norm, single), ans) in enumerate(zip(cases, answers)):
+    for k, ((dgms, keep, vinf, norm, single, reps), ans) in enumerate(zip(cases, answers)):
         if k < 120:                      # statement coverage of the anchored function on a slice of the run
             with cov:
-                code = canon(run_code(dgms, keep, vinf, norm, single))
+                code = canon(run_code(dgms, keep, vinf, norm, single, reps))
         else:
-            code = canon(run_code(dgms, keep, vinf, norm, single))
+            code = canon(run_code(dgms, keep, vinf, norm, single, reps))
+        ctx.count("flags_as:" + "/".join(reps))
         nontriv = any(sum(1 for b in d if math.isfinite(b[1])) >= 2 for d in dgms)
         if any(math.isinf(b[0]) for d in dgms for b in d):
             ctx.count("with_infinite_birth")
-        ctx.case({"op": "ent", "keep_inf": keep, "val_inf": vinf, "normalize": norm, "dgms": dgms}, nontriv, sample_every=97)
+        ctx.case({"op": "ent", "keep_inf": keep, "val_inf": vinf, "normalize": norm, "flag_reps": reps, "dgms": dgms}, nontriv, sample_every=97)
         if isinstance(code, str) or isinstance(ans, str):
             ctx.count("errors:" + str(code if isinstance(code, str) else "ok"))
             agree = code == ans
@@ -143,7 +164,7 @@ def run(ctx):
                           % ("the definition" if verdict == "fail" else
                              "the model only where the statement leaves the behaviour open (%s)" % free if verdict == "corr" else
                              "the model (definition agrees with code)", code, ans, spec),
-                          {"dgms": dgms, "keep_inf": keep, "val_inf": vinf, "normalize": norm, "single": single},
+                          {"dgms": dgms, "keep_inf": keep, "val_inf": vinf, "normalize": norm, "single": single, "flag_reps": reps},
                           found_input=verdict == "fail", correspondence="ent")
             if claimed(ctx) > 5:
                 return
@@ -164,9 +185,11 @@ def eval_shared(dgms, calls, single):
     arrs = [arr(d) for d in dgms]
     pe = common.pm("persistent_entropy").persistent_entropy
     out = []
-    for keep, vinf, norm in calls:
+    for c in calls:
+        keep, vinf, norm = c[:3]
+        reps = c[3] if len(c) > 3 else ("bool", "bool")          # how the two flags are written (FLAG_REPS)
         with np.errstate(all="ignore"):
-            code = canon(call(pe, arrs[0] if single else arrs, keep_inf=keep, val_inf=vinf, normalize=norm))
+            code = canon(call(pe, arrs[0] if single else arrs, keep_inf=flag(keep, reps[0]), val_inf=vinf, normalize=flag(norm, reps[1])))
         spec, free = spec_value(dgms, keep, vinf, norm)
         out.append((code, spec, judge(spec, free, code)))
     return out
@@ -178,8 +201,8 @@ def shared_arrays(ctx):
     for _ in range(ctx.n(150, 2500)):
         dgms = [gen_barcode(ctx, inf_p=0.5) for _ in range(r.randint(1, 3))]
         single = len(dgms) == 1 and r.random() < 0.5
-        calls = [(r.random() < 0.5, None if r.random() < 0.2 else r.choice([0.5, 7.0, 100.0, float(r.randint(1, 30))]), r.random() < 0.5)
-                 for _ in range(r.randint(2, 4))]
+        calls = [(r.random() < 0.5, None if r.random() < 0.2 else r.choice([0.5, 7.0, 100.0, float(r.randint(1, 30))]), r.random() < 0.5,
+                  gen_flag_reps(r)) for _ in range(r.randint(2, 4))]
         res = eval_shared(dgms, calls, single)
         bad = [i for i, (code, spec, v) in enumerate(res) if v == "fail"]
         open_ = [i for i, (code, spec, v) in enumerate(res) if v == "corr"]
@@ -344,6 +367,7 @@ def eval_laws(bars, t, lam, perm_seed, drop):
     a = arr(bars)
     n = len(bars)
     out = {}
+    on = flag(True, FLAG_REPS[perm_seed % 3])            # the flags that are switched on below: written as bool / np.bool_ / 1
     Hv = ent(a)
     ok = Hv is not None and len(Hv) == 1 and math.isfinite(Hv[0])
     H = Hv[0] if ok else math.nan
@@ -365,14 +389,14 @@ def eval_laws(bars, t, lam, perm_seed, drop):
     Heq = ent(eq)
     out["equal_lengths"] = same(Heq, [math.log(n)], 1e-12)
     if n >= 2:
-        Hn = ent(a, normalize=True)
+        Hn = ent(a, normalize=on)
         out["normalised_unit"] = Hn is not None and len(Hn) == 1 and -1e-12 <= Hn[0] <= 1 + 1e-12
     k = perm_seed % (n + 1)                    # the infinite bar goes anywhere in the diagram, not only to the end
     withinf = np.vstack([a[:k], [[0.0, np.inf]], a[k:]])
     subst = np.vstack([a[:k], [[0.0, 9.0]], a[k:]])
     # "dropped" / "replaced by the supplied value" / "vector of individual entropies": equal up to rounding (a masked or
     # padded batch evaluation may sum in another order), not bit for bit
-    out["inf_handling"] = same(ent(withinf), Hv, 1e-12) and same(ent(withinf, keep_inf=True, val_inf=9.0), ent(subst), 1e-12)
+    out["inf_handling"] = same(ent(withinf), Hv, 1e-12) and same(ent(withinf, keep_inf=on, val_inf=9.0), ent(subst), 1e-12)
     both = ent([a, eq])
     out["list_is_map"] = both is not None and len(both) == 2 and same(both[:1], Hv, 1e-12) and same(both[1:], Heq, 1e-12)
     bad = np.vstack([a[:k], [[2.0, 2.0 - drop]], a[k:]])
@@ -405,14 +429,17 @@ def replay(ctx, rep):
     """True iff the property as stated holds for the recorded case on this tree (a difference in behaviour the statement
     leaves open - verdict "corr" - is not a failure)"""
     c = rep["case"]
+    if "dgms" in c:                      # replay files are strict JSON: an infinite coordinate is stored as the string "inf"
+        c = dict(c, dgms=[[[float(x) for x in b] for b in d] for d in c["dgms"]])
     if c.get("shared"):
-        res = eval_shared(c["dgms"], [tuple(x) for x in c["calls"]], c["single"])
+        res = eval_shared(c["dgms"], [tuple(x) for x in c["calls"]], c["single"])      # a call: keep_inf, val_inf, normalize[, flag_reps]
         for i, (code, spec, v) in enumerate(res):
             print("call", i, c["calls"][i], "code:", code, "definition:", spec, "verdict:", v)
         return not any(v == "fail" for _, _, v in res)
     if "dgms" in c:
         # the recorded call style: a lone array (single) or a list of arrays
-        code = canon(run_code(c["dgms"], c["keep_inf"], c["val_inf"], c["normalize"], bool(c.get("single", False))))
+        code = canon(run_code(c["dgms"], c["keep_inf"], c["val_inf"], c["normalize"], bool(c.get("single", False)),
+                              c.get("flag_reps", ("bool", "bool"))))
         spec, free = spec_value(c["dgms"], c["keep_inf"], c["val_inf"], c["normalize"])
         v = judge(spec, free, code)
         print("code:", code, "\ndefinition:", spec, "\nleft open by the statement:", free, "\nverdict:", v)
@@ -436,7 +463,7 @@ MANIFEST = {
             "supplied value, a non-positive bar raises - including a bar with infinite birth and finite death, which the death-only "
             "filter keeps (inf_birth_raises) - for barcodes of every size. The model is tied to the code on every run by executing the "
             "same definitions at Float against the real function on generated barcodes (infinite deaths and births) and all flag "
-            "combinations (1e-12); a representation stream (uint8/int8/int32/int64/uint16/float32 arrays, nested lists, tuples, an "
+            "combinations, keep_inf and normalize written as Python bool, np.bool_ or the integers 0/1 (1e-12); a representation stream (uint8/int8/int32/int64/uint16/float32 arrays, nested lists, tuples, an "
             "extra column, unsigned bars born after dying) compares the real function with the definition on the same numbers, and "
             "the laws are also evaluated on the real code as tests. A failing input is claimed only for what the statement fixes: "
             "the value for bars of positive length (normalised: n >= 2), one entry per diagram, and that a non-positive bar raises "
